@@ -1046,3 +1046,51 @@ func (c *Ctx) ruleRefusalCarriesError(rule string, pkgs []string, min int) {
 	}
 	R.Check(rule, "-", "returns examined", "", nRet >= 100, "the rule looked at the returns of the value-and-error functions of the packages", fmt.Sprintf("%d returns, %d of them untested refusals with a computed error", nRet, n))
 }
+
+// c03LockStored: NUT-20. A mint quote requested with a public key is stored with that key: on the paths where
+// the request's key is not empty, the record handed to the quote insert carries the parsed request key - no
+// path stores "no key" for a request that named one (such a quote could be minted by anyone who learns its id).
+func (c *Ctx) c03LockStored(rule string) {
+	R := c.R
+	op := c.op(rule, "/v1/mint/quote/{method}")
+	if op == nil {
+		return
+	}
+	fk := c.P.FuncKey(op)
+	n := 0
+	for _, s := range c.roleSites(op, roleNewMint) {
+		if !s.Direct {
+			continue
+		}
+		g := s.Instr.Parent()
+		og := c.CtxOf(s.Instr)
+		// the edges that say "no key requested"
+		cut := map[Edge]bool{}
+		for _, e := range og.AllEdges() {
+			if x := lenZero(og.EdgeFact(e)); x != nil && strings.HasSuffix(x.String(), ".Pubkey") && strings.HasPrefix(x.String(), "P:") {
+				cut[e] = true
+			}
+		}
+		d := c.P.Describe(s.Instr)
+		if len(d.Args) == 0 {
+			continue
+		}
+		n++
+		if len(cut) == 0 {
+			R.Check(rule, fk, "quote requested with a key is stored with it", c.P.InstrPos(s.Instr), false, "a requested NUT-20 key is stored with the quote", "no test of the request's key for being empty in "+c.P.FuncKey(g))
+			continue
+		}
+		key := project(og.WithCut(cut).Of(d.Args[0]), "Pubkey")
+		ok, why := true, ""
+		for _, a := range key.Alts() {
+			if !(isCall(a, "secp256k1.ParsePubKey") && a.Idx == 0 && strings.Contains(a.String(), ".Pubkey")) {
+				ok, why = false, "with a key requested the stored key can be "+short(a.String(), 100)
+			}
+		}
+		R.Check(rule, fk, "quote requested with a key is stored with it", c.P.InstrPos(s.Instr), ok,
+			"on every path with a non-empty request key the stored quote carries the key parsed from the request", why)
+	}
+	if n == 0 {
+		R.Unresolved(rule, "mint quote insert in "+fk, "no direct call with role "+roleNewMint)
+	}
+}
